@@ -20,7 +20,7 @@ def run(ctx):
         ctx.broken.append(("translator stencil_extract.py: the Stencil tables of the headers no longer have the extractable form", (r.stdout + r.stderr)[-2000:]))
     else:
         ctx.cov["stencil_tables"] = json.loads(r.stdout.strip().splitlines()[-1])
-    ctx.prove()
+    ctx.prove(extra_modules=["GMGProofs.Props.C04c"])
     h = ctx.build_harness("h_ops")
     ctx.pipe([h, "direct", "24" if ctx.tier == "quick" else "300", "9", "16"], "direct", label="direct-solves")
     if ctx.tier == "thorough":
